@@ -14,7 +14,23 @@ fn mode_name() -> &'static str {
     if cfg!(debug_assertions) { "checks" } else { "wraps" }
 }
 
+/// How long a sink's `Drop` takes (ns). 0 for the sequential families; the concurrent sub-family lets the
+/// teardown of a displaced connection take a few microseconds, as a real sink (socket close, its own locks)
+/// would: legitimate embedder code, and it runs wherever `TransferControl` drops the last handle.
+static DROP_SPIN_NS: std::sync::atomic::AtomicU64 = std::sync::atomic::AtomicU64::new(0);
+
 struct Dummy;
+impl Drop for Dummy {
+    fn drop(&mut self) {
+        let ns = DROP_SPIN_NS.load(std::sync::atomic::Ordering::Relaxed);
+        if ns > 0 {
+            let t0 = Instant::now();
+            while (t0.elapsed().as_nanos() as u64) < ns {
+                std::hint::spin_loop();
+            }
+        }
+    }
+}
 impl PeerSink for Dummy {
     fn send_notify(&self, _m: &str, _b: NotifyBody) -> Result<(), PeerSendError> {
         Ok(())
@@ -264,7 +280,13 @@ impl Ctl {
 
     /// Run one op on the real object.
     fn call(&self, op: &Op) -> Ret {
-        let tc = &self.tc;
+        call_tc(&self.tc, op)
+    }
+}
+
+/// Run one op on the real object.
+fn call_tc(tc: &TransferControl, op: &Op) -> Ret {
+    {
         let r = catch(|| match op {
             Op::Sent(o) => {
                 tc.record_sent(*o);
@@ -322,7 +344,9 @@ impl Ctl {
             Err(msg) => Ret::Panic(msg),
         }
     }
+}
 
+impl Ctl {
     /// Update what the op log tells us (no observation of the object needed except `sent` for the loop ghost).
     fn track(&mut self, op: &Op, ret: &Ret, before_sent: Option<u64>) {
         if let Ret::Panic(_) = ret {
@@ -391,6 +415,9 @@ static RING_FAMILY: std::sync::atomic::AtomicBool = std::sync::atomic::AtomicBoo
 
 fn relevant(sig: &str) -> bool {
     let c13 = ["transfer.ring.", "transfer.resume.", "transfer.reconnect.", "transfer.advance."].iter().any(|p| sig.starts_with(p));
+    if sig.starts_with("transfer.conc.") {
+        return true;
+    }
     if RING_FAMILY.load(std::sync::atomic::Ordering::Relaxed) { c13 } else { !c13 }
 }
 
@@ -843,6 +870,357 @@ fn exec_enum(out: &mut Out, line: &str) {
     out.add(&format!("enum.{}.nontrivial", dom), nt);
 }
 
+
+// ------------------------------------------------------------------------------------------
+// concurrent sub-family: 2-3 threads race short programs on one real object; the outcome (every
+// return value in program order per thread + the final state) must be the outcome of some
+// sequential order of the calls that respects each thread's program order.
+//   conc <i> <window> <cap> <setup> :: <prog> <prog> [<prog>] :: <observed outcome>…
+// programs are comma-separated op codes: s<off> a<file>.<off> c<r> v<file> r<peer>.<file>.<off> k<len> w
+// p<off>.<dlen>.<wlen> y<off> t<peer> and the reads o (offsets) i (is_cancelled) n (cancel_reason) g (peer)
+// ------------------------------------------------------------------------------------------
+#[derive(Clone, Debug)]
+enum COp {
+    Op(Op),
+    ROff,
+    RIsc,
+    RReason,
+    RPeer,
+}
+
+fn parse_cop(c: &str) -> Option<COp> {
+    let (h, rest) = c.split_at(1);
+    let nums: Vec<u64> = if rest.is_empty() { vec![] } else { rest.split('.').map(|x| x.parse::<u64>().ok()).collect::<Option<Vec<_>>>()? };
+    let n = |i: usize| nums.get(i).copied();
+    Some(match (h, nums.len()) {
+        ("s", 1) => COp::Op(Op::Sent(n(0)?)),
+        ("a", 2) => COp::Op(Op::Ack(n(0)? as u32, n(1)?)),
+        ("c", 1) => COp::Op(Op::Cancel(n(0)?)),
+        ("v", 1) => COp::Op(Op::Advance(n(0)? as u32)),
+        ("r", 3) => COp::Op(Op::Resume(n(0)?, n(1)? as u32, n(2)?)),
+        ("k", 1) => COp::Op(Op::Credit(n(0)?)),
+        ("w", 0) => COp::Op(Op::Reconnect),
+        ("p", 3) => COp::Op(Op::Push(n(0)?, n(1)?, false, vec![(n(0)? + n(1)?) as u8; n(2)? as usize])),
+        ("y", 1) => COp::Op(Op::Replay(n(0)?)),
+        ("t", 1) => COp::Op(Op::SetPeer(n(0)?)),
+        ("o", 0) => COp::ROff,
+        ("i", 0) => COp::RIsc,
+        ("n", 0) => COp::RReason,
+        ("g", 0) => COp::RPeer,
+        _ => return None,
+    })
+}
+
+fn parse_prog(w: &str) -> Option<Vec<COp>> {
+    if w == "-" {
+        return Some(vec![]);
+    }
+    w.split(',').map(parse_cop).collect()
+}
+
+/// One call of a concurrent program on the real object; the result as one token.
+fn call_cop(tc: &TransferControl, c: &COp) -> String {
+    let s = match c {
+        COp::Op(op) => show_ret(&call_tc(tc, op)),
+        COp::ROff => catch(|| tc.offsets()).map(|(s, a)| format!("off {} {}", s, a)).unwrap_or_else(|_| "PANIC".into()),
+        COp::RIsc => catch(|| tc.is_cancelled()).map(|b| format!("isc {}", b as u8)).unwrap_or_else(|_| "PANIC".into()),
+        COp::RReason => catch(|| tc.cancel_reason())
+            .map(|r| format!("reason {}", r.as_deref().map(show_reason).unwrap_or_else(|| "-".into())))
+            .unwrap_or_else(|_| "PANIC".into()),
+        COp::RPeer => catch(|| tc.peer().map(|p| p.peer_id().0))
+            .map(|p| format!("peer {}", p.map(|p| p.to_string()).unwrap_or_else(|| "-".into())))
+            .unwrap_or_else(|_| "PANIC".into()),
+    };
+    s.replace(' ', "_")
+}
+
+/// Final observation once every thread is done: the whole visible state, then what a reconnect wait hands over.
+fn conc_final(tc: &Arc<TransferControl>) -> String {
+    let c = Ctl { tc: tc.clone(), ..Ctl::new(0, 0) };
+    let snap = show_snap(&c.snap());
+    let rec = show_ret(&call_tc(tc, &Op::Reconnect));
+    format!("{}/{}", snap, rec).replace(' ', "_")
+}
+
+fn conc_fresh(window: u64, cap: u64, setup: &[COp]) -> Arc<TransferControl> {
+    let tc = TransferControl::with_replay_capacity(window, cap);
+    for c in setup {
+        call_cop(&tc, c);
+    }
+    tc
+}
+
+/// Outcomes of every sequential order (program order kept per thread), each run on a fresh real object.
+fn conc_seq_outcomes(window: u64, cap: u64, setup: &[COp], progs: &[Vec<COp>]) -> std::collections::BTreeSet<String> {
+    fn orders(progs: &[Vec<COp>], pos: &mut Vec<usize>, cur: &mut Vec<usize>, out: &mut Vec<Vec<usize>>) {
+        if (0..progs.len()).all(|i| pos[i] == progs[i].len()) {
+            out.push(cur.clone());
+            return;
+        }
+        for i in 0..progs.len() {
+            if pos[i] < progs[i].len() {
+                pos[i] += 1;
+                cur.push(i);
+                orders(progs, pos, cur, out);
+                cur.pop();
+                pos[i] -= 1;
+            }
+        }
+    }
+    let mut all = vec![];
+    orders(progs, &mut vec![0; progs.len()], &mut vec![], &mut all);
+    let mut res = std::collections::BTreeSet::new();
+    for order in all {
+        let tc = conc_fresh(window, cap, setup);
+        let mut pos = vec![0usize; progs.len()];
+        let mut rets: Vec<Vec<String>> = vec![vec![]; progs.len()];
+        for t in order {
+            rets[t].push(call_cop(&tc, &progs[t][pos[t]]));
+            pos[t] += 1;
+        }
+        let r: Vec<String> = rets.iter().map(|v| v.join(",")).collect();
+        res.insert(format!("{}|{}", r.join(";"), conc_final(&tc)));
+    }
+    res
+}
+
+fn spin_until(cond: impl Fn() -> bool, limit: Duration) -> bool {
+    let t0 = Instant::now();
+    let mut n = 0u64;
+    while !cond() {
+        n += 1;
+        if n % 64 == 0 {
+            std::thread::yield_now();
+        }
+        if n % 4096 == 0 && t0.elapsed() > limit {
+            return false;
+        }
+        std::hint::spin_loop();
+    }
+    true
+}
+
+struct ConcShared {
+    slot: std::sync::Mutex<Option<Arc<TransferControl>>>,
+    gen: std::sync::atomic::AtomicUsize,
+    ready: std::sync::atomic::AtomicUsize,
+    done: std::sync::atomic::AtomicUsize,
+    quit: std::sync::atomic::AtomicBool,
+    rets: Vec<std::sync::Mutex<Vec<String>>>,
+    progs: Vec<Vec<COp>>,
+}
+
+struct ConcResult {
+    observed: std::collections::BTreeSet<String>,
+    stuck: bool,
+    reps: u64,
+}
+
+/// Race the programs `reps` times (or until the wall-clock budget is used, at least 20 times).
+/// Workers are detached so a deadlock inside the object can be reported instead of hanging the run.
+fn run_conc(window: u64, cap: u64, setup: &[COp], progs: &[Vec<COp>], reps: u64, budget: Duration, drop_ns: u64) -> ConcResult {
+    use std::sync::atomic::Ordering::{AcqRel, Acquire, Release};
+    let t = progs.len();
+    let sh = Arc::new(ConcShared {
+        slot: std::sync::Mutex::new(None),
+        gen: Default::default(),
+        ready: Default::default(),
+        done: Default::default(),
+        quit: Default::default(),
+        rets: (0..t).map(|_| std::sync::Mutex::new(Vec::new())).collect(),
+        progs: progs.to_vec(),
+    });
+    let mut res = ConcResult { observed: Default::default(), stuck: false, reps: 0 };
+    let long = Duration::from_secs(3600);
+    let mut joins = vec![];
+    for ti in 0..t {
+        let sh = sh.clone();
+        joins.push(std::thread::spawn(move || {
+            let mut rep = 0usize;
+            loop {
+                rep += 1;
+                if !spin_until(|| sh.gen.load(Acquire) >= rep || sh.quit.load(Acquire), long) || sh.quit.load(Acquire) {
+                    return;
+                }
+                let tc = sh.slot.lock().unwrap().clone().unwrap();
+                sh.ready.fetch_add(1, AcqRel);
+                if !spin_until(|| sh.ready.load(Acquire) >= rep * sh.progs.len() || sh.quit.load(Acquire), long) || sh.quit.load(Acquire) {
+                    return;
+                }
+                let my: Vec<String> = sh.progs[ti].iter().map(|c| call_cop(&tc, c)).collect();
+                *sh.rets[ti].lock().unwrap() = my;
+                drop(tc);
+                sh.done.fetch_add(1, AcqRel);
+            }
+        }));
+    }
+    let t0 = Instant::now();
+    for rep in 1..=(reps as usize) {
+        if rep > 20 && t0.elapsed() > budget {
+            break;
+        }
+        DROP_SPIN_NS.store(0, std::sync::atomic::Ordering::Relaxed);
+        let tc = conc_fresh(window, cap, setup);
+        DROP_SPIN_NS.store(drop_ns, std::sync::atomic::Ordering::Relaxed);
+        *sh.slot.lock().unwrap() = Some(tc.clone());
+        sh.gen.store(rep, Release);
+        if !spin_until(|| sh.done.load(Acquire) >= rep * t, Duration::from_secs(60)) {
+            res.stuck = true;
+            sh.quit.store(true, Release);
+            DROP_SPIN_NS.store(0, std::sync::atomic::Ordering::Relaxed);
+            std::mem::forget(tc);
+            return res;
+        }
+        DROP_SPIN_NS.store(0, std::sync::atomic::Ordering::Relaxed);
+        *sh.slot.lock().unwrap() = None;
+        let r: Vec<String> = sh.rets.iter().map(|m| m.lock().unwrap().join(",")).collect();
+        res.observed.insert(format!("{}|{}", r.join(";"), conc_final(&tc)));
+        res.reps += 1;
+    }
+    sh.quit.store(true, Release);
+    for j in joins {
+        let _ = j.join();
+    }
+    res
+}
+
+struct ConcCfg {
+    reps: u64,
+    budget: Duration,
+    drop_ns: u64,
+}
+
+/// Execute one `conc` line: race on the real object, decide membership against the sequential orders run on
+/// the real object (direct oracle), and emit the observed outcomes on the op line so that the model decides
+/// membership against *its* sequential orders too (diffed like every other observation).
+fn exec_conc(out: &mut Out, line: &str, cfg: &ConcCfg) {
+    let w = words(line);
+    let idx = w[1];
+    let bad = |out: &mut Out| out.case(line, &format!("{} bad-op", idx), false);
+    let seps: Vec<usize> = w.iter().enumerate().filter(|(_, x)| **x == "::").map(|(i, _)| i).collect();
+    if w.len() < 8 || seps.is_empty() || seps[0] != 5 {
+        return bad(out);
+    }
+    let (Ok(window), Ok(cap)) = (w[2].parse::<u64>(), w[3].parse::<u64>()) else { return bad(out) };
+    let Some(setup) = parse_prog(w[4]) else { return bad(out) };
+    let end = seps.get(1).copied().unwrap_or(w.len());
+    let mut progs = vec![];
+    for p in &w[6..end] {
+        let Some(p) = parse_prog(p) else { return bad(out) };
+        progs.push(p);
+    }
+    if progs.is_empty() || progs.len() > 4 || progs.iter().map(|p| p.len()).sum::<usize>() > 9 {
+        return bad(out);
+    }
+    let head = w[..end].join(" ");
+    let res = run_conc(window, cap, &setup, &progs, cfg.reps, cfg.budget, cfg.drop_ns);
+    if res.stuck {
+        out.oracle_fail("transfer.conc.stuck", "concurrent callers did not finish within 60 s", &[head.clone()]);
+        out.case(&head, &format!("{} conc STUCK", idx), false);
+        return;
+    }
+    let allowed = conc_seq_outcomes(window, cap, &setup, &progs);
+    out.add("conc.races", res.reps);
+    out.add("conc.distinct_outcomes_observed", res.observed.len() as u64);
+    out.count(&format!("conc.threads{}", progs.len()));
+    out.evaluations += res.reps.saturating_sub(1);
+    let full = format!("{} :: {}", head, res.observed.iter().cloned().collect::<Vec<_>>().join(" "));
+    match res.observed.iter().find(|o| !allowed.contains(*o)) {
+        Some(bad_o) => {
+            out.count("conc.nonlinearizable");
+            out.oracle_fail(
+                "transfer.conc.nonlinearizable",
+                &format!("racing the programs {} gave the outcome `{}`, which is not the outcome of any sequential order of the calls (the {} sequential orders' outcomes: {})",
+                         w[6..end].join(" | "), bad_o, allowed.len(), allowed.iter().cloned().collect::<Vec<_>>().join(" ")),
+                &[format!("mode {}", mode_name()), head.clone()],
+            );
+            out.case(&full, &format!("{} conc NONLIN {}", idx, bad_o), true);
+        }
+        None => out.case(&full, &format!("{} conc ok {}", idx, res.observed.len()), allowed.len() > 1),
+    }
+}
+
+/// Targeted races: a resume (displacing a peer whose teardown takes a moment) against cancel / advance and a
+/// reader that looks right after them.
+fn conc_targeted(ring: bool) -> Vec<String> {
+    let setup = "t9,p0.1.1,p1.1.1,s2";
+    let mut v: Vec<String> = vec![
+        format!("8 8 {} :: r7.0.1 c0,o,i", setup),
+        format!("8 8 {} :: r7.0.1 c0,o o,i,o", setup),
+        format!("8 8 {} :: r7.0.1,o c0,n,o", setup),
+        format!("8 8 {} :: r7.0.1 v1,o,w", setup),
+        format!("8 8 {} :: r7.0.1 v1,o o,g", setup),
+        format!("8 8 {} :: r7.0.2,w c1,o,n a0.1,o", setup),
+    ];
+    if ring {
+        v.push(format!("8 8 {} :: r7.0.1 v0,w,o p2.1.1,y0", setup));
+        v.push(format!("8 2 {} :: r7.0.1,w p2.1.1,p3.1.1 y0,o", setup));
+    } else {
+        v.push(format!("2 8 {} :: r7.0.1,k1 c0,k1,o a0.2,k1", setup));
+        v.push(format!("2 8 {} :: s3,k1 a0.3,o a1.3,k2", setup));
+    }
+    v
+}
+
+fn gen_conc(r: &mut Rng, ring: bool) -> String {
+    let window = *r.pick(&[2u64, 4, 8]);
+    let cap = *r.pick(&[0u64, 2, 3, 8]);
+    // setup: optionally a first peer (so a resume displaces one), some pushes, sent, ack
+    let mut setup: Vec<String> = vec![];
+    if r.chance(3, 4) {
+        setup.push("t9".into());
+    }
+    let npush = r.below(4);
+    let mut off = 0u64;
+    for _ in 0..npush {
+        let d = r.range(0, 2);
+        setup.push(format!("p{}.{}.{}", off, d, d + r.below(2)));
+        off += d;
+    }
+    if r.chance(3, 4) {
+        setup.push(format!("s{}", r.range(1, 4)));
+    }
+    if r.chance(1, 3) {
+        setup.push(format!("a0.{}", r.range(0, 2)));
+    }
+    let threads = r.range(2, 3) as usize;
+    let mut progs: Vec<String> = vec![];
+    let mut total = 0;
+    let mut pusher_used = false;
+    for t in 0..threads {
+        let n = r.range(1, 3).min(7u64.saturating_sub(total)).max(1);
+        total += n;
+        let pusher = ring && !pusher_used && r.chance(1, 3);
+        pusher_used |= pusher;
+        let mut ops: Vec<String> = vec![];
+        let mut poff = off;
+        for _ in 0..n {
+            let k = if t == 0 && ops.is_empty() { r.below(3) } else { r.below(14) };
+            ops.push(match k {
+                0 | 1 => format!("r{}.{}.{}", 7 + t, r.below(2), r.below(off + 2)),
+                2 | 3 => format!("c{}", t),
+                4 => format!("v{}", r.below(2)),
+                5 => format!("a{}.{}", r.below(2), r.range(0, 4)),
+                6 => format!("s{}", r.range(1, 5)),
+                7 | 8 => "o".into(),
+                9 => if r.chance(1, 2) { "i".into() } else { "n".into() },
+                10 => "w".into(),
+                11 => format!("k{}", r.range(1, 3)),
+                12 if pusher => {
+                    let d = r.range(0, 2);
+                    let c = format!("p{}.{}.{}", poff, d, d + r.below(2));
+                    poff += d;
+                    c
+                }
+                12 => "g".into(),
+                _ => if ring { format!("y{}", r.below(off + 1)) } else { "o".into() },
+            });
+        }
+        progs.push(ops.join(","));
+    }
+    format!("{} {} {} :: {}", window, cap, if setup.is_empty() { "-".into() } else { setup.join(",") }, progs.join(" "))
+}
+
 // ------------------------------------------------------------------------------------------
 // random long histories over the 64-bit boundary lattice
 // ------------------------------------------------------------------------------------------
@@ -1095,6 +1473,9 @@ fn main() {
             out.begin(&line);
             if line.starts_with("enum ") {
                 exec_enum(&mut out, &line);
+            } else if line.starts_with("conc ") {
+                // a replay races much longer than a regular run
+                exec_conc(&mut out, &line, &ConcCfg { reps: 200_000, budget: Duration::from_secs(20), drop_ns: 40_000 });
             } else {
                 let (obs, nt) = exec_line(&mut ex, &mut out, &line);
                 out.case(&line, &obs, nt);
@@ -1149,5 +1530,22 @@ fn main() {
     let ring_bias = family == "ring";
     let (histories, max_len) = if thorough { (6000, 200) } else { (600, 200) };
     run_random(&mut ex, &mut out, &mut rng, histories, max_len, ring_bias, &mut k);
+
+    // concurrent callers: targeted races first, then generated ones
+    out.rule.push_str(" | conc: 2-3 threads x 1-3 calls (resume / cancel / advance / ack / sent / credit / reconnect and the reads offsets, is_cancelled, cancel_reason, peer) released from a spin barrier on one real object whose displaced peer's sink takes a few microseconds to drop; the outcome (all return values + final state + what a reconnect wait hands over) must be the outcome of a sequential order respecting program order, decided on the real object's own sequential runs (oracle) and by the model (diff); non-trivial = more than one sequential outcome");
+    let (t_reps, t_budget, g_n, g_reps, g_budget) = if thorough { (60_000, 2000, 600, 1500, 100) } else { (12_000, 450, 110, 300, 25) };
+    let mut ci = 0;
+    for spec in conc_targeted(ring_bias) {
+        let line = format!("conc q{} {}", ci, spec);
+        ci += 1;
+        out.begin(&line);
+        exec_conc(&mut out, &line, &ConcCfg { reps: t_reps, budget: Duration::from_millis(t_budget), drop_ns: 40_000 });
+    }
+    for _ in 0..g_n {
+        let line = format!("conc q{} {}", ci, gen_conc(&mut rng, ring_bias));
+        ci += 1;
+        out.begin(&line);
+        exec_conc(&mut out, &line, &ConcCfg { reps: g_reps, budget: Duration::from_millis(g_budget), drop_ns: 8_000 });
+    }
     out.finish();
 }
